@@ -348,7 +348,7 @@ class _Path:
             elif isinstance(n, nodes.CallBlock) and isinstance(n.call.node, nodes.Name) and n.call.node.name not in vars_ \
                     and n.call.node.name in self.ti.macros and n.call.node.name not in self.stack and len(self.stack) < self.max_depth:
                 # {% call m(...) %}body{% endcall %}: the macro, with `caller()` writing the body (rendered where the call is)
-                out += self.inline(self.ti.macros[n.call.node.name], n.call, vars_, subst, caller=self.block(n.body, dict(vars_), subst))
+                out += self.inline(self.ti.macros[n.call.node.name], n.call, vars_, subst, caller=(n, dict(vars_), dict(subst)))
             elif isinstance(n, (nodes.With, nodes.Scope, nodes.CallBlock, nodes.FilterBlock)):
                 out += self.block(getattr(n, "body", []), dict(vars_), subst)
         return out
@@ -385,8 +385,11 @@ class _Path:
                     ps = self.indented(ps, width, bool(first))
             return ps
         if isinstance(e, nodes.Call):
-            if isinstance(e.node, nodes.Name) and e.node.name == "caller" and "caller" in vars_ and not e.args and not e.kwargs:
-                return list(vars_["caller"])
+            if isinstance(e.node, nodes.Name) and e.node.name == "caller" and len(vars_.get("caller", [])) == 1 and isinstance(vars_["caller"][0].value, tuple):
+                # the body of the call block, where the call block is written, with what `caller(...)` passes for its parameters
+                blk, vars0, subst0 = vars_["caller"][0].value
+                vars1, subst1 = self.bound(blk, e, vars_, subst)
+                return self.block(blk.body, {**{k: v for k, v in vars0.items() if k not in subst1}, **vars1}, {**{k: v for k, v in subst0.items() if k not in vars1}, **subst1})
             m = self.ti.macros.get(e.node.name) if isinstance(e.node, nodes.Name) and e.node.name not in vars_ else None
             if m is not None and e.node.name not in self.stack and len(self.stack) < self.max_depth:
                 return self.inline(m, e, vars_, subst)
@@ -394,31 +397,37 @@ class _Path:
             return [_Piece("h", self.text_of(e, vars_, subst), e, args)]
         return [_Piece("h", self.text_of(e, vars_, subst), e)]
 
-    def inline(self, m: nodes.Macro, call: nodes.Call, vars_: dict, subst: dict, caller: list[_Piece] | None = None) -> list[_Piece]:
+    def inline(self, m: nodes.Macro, call: nodes.Call, vars_: dict, subst: dict, caller: tuple | None = None) -> list[_Piece]:
+        vars2, subst2 = self.bound(m, call, vars_, subst)
+        if self.whole:
+            vars2 = {**{k: v for k, v in self.globals.items() if k not in subst2}, **vars2}
+        # (`caller`: the call block the macro is used with - nothing, which is false, in a plain call)
+        vars2["caller"] = [_Piece("h", "caller", None, (), caller)] if caller is not None else []
+        self.stack.append(m.name)
+        try:
+            return self.block(m.body, vars2, subst2)
+        finally:
+            self.stack.pop()
+
+    def bound(self, m: Any, call: nodes.Call, vars_: dict, subst: dict) -> tuple[dict[str, list[_Piece]], dict[str, str]]:
+        """the parameters of a macro / call block bound to what the call passes: (values, texts)"""
         names = [a.name for a in m.args]
         bound: dict[str, list[_Piece]] = {}
         for a, d in zip(names[len(names) - len(m.defaults):], m.defaults):
             bound[a] = self.expr(d, {}, {})
         for nm, a in [*zip(names, call.args), *[(k.key, k.value) for k in call.kwargs if k.key in names]]:
             bound[nm] = self.expr(a, vars_, subst)
-        vars2: dict[str, list[_Piece]] = dict(self.globals) if self.whole else {}
+        vars2: dict[str, list[_Piece]] = {}
         subst2: dict[str, str] = {}
         for nm, ps in bound.items():
             # an argument without a value here stays what the call site wrote (tests and holes of the callee then read like the
             # caller's); text and mixtures are values of the parameter
             if len(ps) == 1 and ps[0].kind == "h" and not ps[0].args and ps[0].value is _NO:
                 subst2[nm] = ps[0].text
-                vars2.pop(nm, None)
             else:
                 # (the expressions behind the holes belong to the caller: the callee sees their texts)
                 vars2[nm] = [_Piece("h", p.text, None, p.args, p.value) if p.kind == "h" else p for p in ps]
-        # (`caller`: the body of the call block the macro is used with - nothing, which is false, in a plain call)
-        vars2["caller"] = list(caller) if caller is not None else []
-        self.stack.append(m.name)
-        try:
-            return self.block(m.body, vars2, subst2)
-        finally:
-            self.stack.pop()
+        return vars2, subst2
 
 
 def _paths(ti: Any, macro: nodes.Macro, known: Any = None, limit: int = 512, whole: bool = False) -> list[tuple[dict[str, bool], list[_Piece]]]:
